@@ -409,7 +409,10 @@ STRUCTURAL = ('message-block', 'upper', 'lead1', 'lead4', 'dollar', 'ccomment', 
               'split5', 'splittab', 'splitamp', 'shorthand')
 
 
-def builder(base, depth, kinds=None):
+NUMERIC = ('num', 'numD', 'numF', 'density')
+
+
+def builder(base, depth, kinds=None, numpairs=True):
     def build(ch):
         text = BASE[base]
         path = []
@@ -417,6 +420,10 @@ def builder(base, depth, kinds=None):
             rw = rewrites(text)
             if kinds is not None:
                 rw = [x for x in rw if x[0].split(':')[0] in kinds]
+            if not numpairs and any(p.split(':')[0] in NUMERIC for p in path):
+                # quick tier: a number respelling is combined with every structural rewrite, not with a
+                # second number respelling (those pairs are in the thorough tier)
+                rw = [x for x in rw if x[0].split(':')[0] not in NUMERIC]
             k = ch.choose('rewrite%d' % step, ['stop'] + list(range(len(rw))))
             if k == 'stop':
                 break
@@ -433,7 +440,10 @@ def builder(base, depth, kinds=None):
 
 
 def scenarios(tier):
-    out = [Scn('deck' + b, builder(b, 2), 2, 2, 'rewrite sequences of length <= 2, all rewrite kinds') for b in 'ABCD']
+    q = tier == 'quick'
+    out = [Scn('deck' + b, builder(b, 2, numpairs=not q), 2, 2,
+               'rewrite sequences of length <= 2, all rewrite kinds' + (' (pairs of two number respellings: thorough tier)' if q else ''))
+           for b in 'ABCD']
     if tier != 'quick':
         # depth 3 over the structural rewrites (case, blanks, continuation, comments, message block, shorthand);
         # number respellings stay at depth 2
